@@ -126,6 +126,11 @@ func (ch *dagChannel) get(isStream bool) (any, bool, error) {
 		return nil, false, nil
 	}
 
+	// a node nobody routes to is never triggered (otherwise it would be ready at every step)
+	if len(ch.ControlPredecessors) == 0 {
+		return nil, false, nil
+	}
+
 	for _, state := range ch.ControlPredecessors {
 		if state == dependencyStateWaiting {
 			return nil, false, nil
